@@ -282,11 +282,13 @@ def _parse_ast_nodes(text:FileText, flags:CompilerFlags, auto_flags:bool, mode:s
     assert isinstance(text, FileText)
     filename = str(text.filename) if text.filename else "<unknown>"
     source = text.joined
-    source = dedent(source)
     if not source.endswith("\n"):
         # Ensure that the last line ends with a newline (``ast`` barfs
-        # otherwise).
+        # otherwise).  Do this before dedenting: ``dedent`` empties a
+        # whitespace-only last line, which must not leave a continuation
+        # backslash on the line before it dangling at the end of the input.
         source += "\n"
+    source = dedent(source)
     exp = None
     for flags in _flags_to_try(source, flags, auto_flags, mode):
         cflags = ast.PyCF_ONLY_AST | int(flags)
